@@ -92,6 +92,8 @@ def coq_ev(c):
         return "EDrop %d" % c[1]
     if n == "dup":
         return "EDup %d" % c[1]
+    if n == "flush":
+        return "EFlush"
     if n == "netstat":
         return "ENetstat %d" % c[1]
     if n in ("counts", "rows"):
@@ -155,7 +157,7 @@ def enc_obs(cmd, o):
     if n == "addrs":
         a = o["a"]
         return [[0] + _addr(a["local"]) + (_addr(a["peer"]) if "peer" in a else [])]
-    if n == "egress":
+    if n in ("egress", "flush"):
         rows = [[0]]
         for p in o["pk"]:
             rows.extend(enc_pkt(p))
@@ -468,7 +470,8 @@ def gen_live(rng):
     followed by a long fair phase in which both applications keep pumping and every packet is
     delivered in order (C06 liveness oracle).  `plan` tells the oracle who writes and reads."""
     cfg = rand_cfg(rng)
-    cfg["retx_max"] = rng.choice([2, 3, 5])
+    cfg["retx_max"] = rng.choice([3, 3, 5])
+    cfg["retx_threshold"] = rng.choice([2, 3, 3])
     cfg["backlog"] = 4
     sc = Script()
     fault_hs = rng.random() < 0.4
@@ -490,12 +493,14 @@ def gen_live(rng):
     sc.add(["poll_connect", cs], E, D(0), ["accept", ls, as_])
     w, rd = (cs, as_) if rng.random() < 0.6 else (as_, cs)
     rsize = rng.choice([1, 1, 2, 4, 16, 256])
-    total = min(rng.choice([1, 5, 20, 64, 150]), 40 * rsize)
+    unit = max(1, min(rsize, cfg["recv_cap"], cfg["send_cap"], mss_of(cfg, 2)))   # bytes that get through per two rounds, at least
+    total = min(rng.choice([1, 5, 20, 64, 150]), 40 * unit)
     chunk = rng.choice([1, 3, 16, 64, 200])
     both = rng.random() < 0.3
     pos = 0
     pdrop = rng.choice([0.0, 0.1, 0.2])
     phold = rng.choice([0.0, 0.0, 0.2])
+    skipped = False
     for _ in range(rng.randrange(2, 10)):
         if pos < total:
             n = min(chunk, total - pos)
@@ -513,13 +518,20 @@ def gen_live(rng):
                 sc.add(D(1))
             else:
                 sc.add(D(0))
+        # bounded delay: what is left on the wire is held for at most one more round
+        if skipped or rng.random() < 0.75:
+            sc.add(["flush"])
+            skipped = False
+        else:
+            skipped = True
         if rng.random() < 0.6:
             sc.add(["read", rd, rsize])
     fair_from = len(sc.s)
+    FL = ["flush"]
     wrounds = 0
     while pos < total and wrounds < 60:
         n = min(chunk, total - pos)
-        sc.add(["write", w, pattern(10, pos, n)], E, D(0), D(0), D(0), D(0), ["read", rd, rsize])
+        sc.add(["write", w, pattern(10, pos, n)], E, FL, ["read", rd, rsize])
         if both:
             sc.add(["read", w, 8])
         pos += n
@@ -527,9 +539,9 @@ def gen_live(rng):
     sc.add(["shutdown", w])
     if both:
         sc.add(["shutdown", rd])
-    rounds = min(160, (cfg["retx_max"] + 2) * settle + 10 + total // rsize)
+    rounds = (cfg["retx_max"] + 2) * settle + 12 + 3 * (total // unit)
     for i in range(rounds):
-        sc.add(E, D(0), D(0), D(0), D(0), ["read", rd, rsize])
+        sc.add(E, FL, ["read", rd, rsize])
         if both:
             sc.add(["read", w, 8])
     sc.add(["read", rd, rsize], ["read", w, 8], ["rows", 0], ["rows", 1], ["netstat", 0], ["netstat", 1])
